@@ -1673,6 +1673,234 @@ impl RecvCase {
     }
 }
 
+impl RecvCase {
+    fn snap_has(&self, what: &str) -> bool {
+        self.t.verif_snapshot().split_whitespace().any(|w| w == what || w.ends_with(&format!("={}", what)) || w == format!("st={}", what))
+    }
+
+    /// The receiver's NAK loop over a lossy link, played as the theorems `C02_lossy_rounds_fair` / `fair_sched`
+    /// (Props/C02x.lean) quantify it: Metadata, part of the file data and the EOF are in; then round after round the
+    /// clock is advanced into the second period of the NAK timer, the expiry is handled, the rebuilt queue is
+    /// transmitted, and the link lets through some of what is missing (or a duplicate, or nothing) - never `limit - 1`
+    /// fruitless rounds in a row, never `limit` inactivity periods without a delivery.  The theorems' conclusions are
+    /// checked on the real transaction: no limit is declared on the way, and once everything has got through the
+    /// delivery is reported Finished / NoError / Complete.  Every op is also answered by the Lean model.
+    pub async fn nak_loop(&mut self, out: &mut dyn Write, viol: &mut u64, rng: &mut Rng, file: &[u8], md: &PDU, eof: &PDU) {
+        let (mode, crc, fss) = (self.cfg.mode, self.cfg.crc, self.cfg.fss);
+        let seg = self.cfg.seg as usize;
+        let m = self.cfg.max as u64;
+        let (tn, ti) = (self.cfg.tn as u64 * 1000, self.cfg.ti as u64 * 1000);
+        let mut pieces: Vec<(usize, usize)> = vec![];
+        let mut off = 0;
+        while off < file.len() {
+            let l = seg.min(file.len() - off);
+            pieces.push((off, l));
+            off += l;
+        }
+        // which pieces are lost on the first pass: at least one
+        let mut missing: Vec<(usize, usize)> = pieces.iter().cloned().filter(|_| rng.chance(1, 2)).collect();
+        if missing.is_empty() {
+            missing.push(*rng.pick(&pieces));
+        }
+        self.op(out, &format!("recv pdu {}", hexpdu(md)), viol).await;
+        for (o, l) in pieces.iter().cloned().filter(|p| !missing.contains(p)) {
+            self.op(out, &format!("recv pdu {}", hexpdu(&fd(o as u64, &file[o..o + l], mode, crc, fss))), viol).await;
+        }
+        self.op(out, &format!("recv pdu {}", hexpdu(eof)), viol).await;
+        let mut guard = 0;
+        while verif::recv_has_pdu_to_send(&self.t) && guard < 64 {
+            self.op(out, "recv send", viol).await;
+            guard += 1;
+        }
+        // the loop's starting state: NAK counter running since the last NAK (`tp`), `j` fruitless rounds so far,
+        // last delivery at `a`
+        let mut tp = self.now_ms;
+        let mut j = 0u64;
+        let mut a = self.now_ms;
+        let mut new_since_nak = false;
+        let mut rounds = 0u64;
+        while !missing.is_empty() && !self.dead && rounds < 40 {
+            rounds += 1;
+            if !self.snap_has("rs=ReceiveData") || !self.snap_has("cond=NoError") {
+                self.bad(out, viol, "C02", "nak_loop_within_limits", format!("a fair lossy schedule (round {}, {} fruitless in a row, limit {}) but the receiver left the collecting phase: {}", rounds, j, m, self.t.verif_snapshot()));
+                return;
+            }
+            // the wake-up: some time in the second period of the NAK timer
+            let t = tp + tn + rng.below(tn);
+            if new_since_nak { j = 0 } else { j += 1 }
+            self.op(out, &format!("recv adv {}", t - self.now_ms), viol).await;
+            self.op(out, "recv timeout", viol).await;
+            guard = 0;
+            while verif::recv_has_pdu_to_send(&self.t) && guard < 64 {
+                self.op(out, "recv send", viol).await;
+                guard += 1;
+            }
+            tp = t;
+            new_since_nak = false;
+            // what the link lets through: it must be something new when one more fruitless round would reach the NAK
+            // limit, and something at all when the next wake-up could lie `limit` inactivity periods after `a`
+            let must_new = j + 2 >= m || rounds >= 30;
+            let must_any = t + 2 * tn >= a + m * ti;
+            let mut dt = 1 + rng.below(40);
+            if must_new || rng.chance(1, 2) {
+                let k = 1 + rng.below(missing.len() as u64) as usize;
+                for _ in 0..k.min(missing.len()) {
+                    let i = rng.below(missing.len() as u64) as usize;
+                    let (o, l) = missing.remove(i);
+                    self.op(out, &format!("recv adv {}", dt), viol).await;
+                    self.op(out, &format!("recv pdu {}", hexpdu(&fd(o as u64, &file[o..o + l], mode, crc, fss))), viol).await;
+                    a = self.now_ms;
+                    dt = 1 + rng.below(20);
+                    new_since_nak = true;
+                    if rounds < 30 && rng.chance(1, 3) {
+                        break;
+                    }
+                }
+            } else if must_any || rng.chance(1, 3) {
+                // a duplicate of something the receiver holds (or the Metadata again)
+                let held: Vec<(usize, usize)> = pieces.iter().cloned().filter(|p| !missing.contains(p)).collect();
+                self.op(out, &format!("recv adv {}", dt), viol).await;
+                if held.is_empty() || rng.chance(1, 4) {
+                    self.op(out, &format!("recv pdu {}", hexpdu(md)), viol).await;
+                } else {
+                    let (o, l) = *rng.pick(&held);
+                    self.op(out, &format!("recv pdu {}", hexpdu(&fd(o as u64, &file[o..o + l], mode, crc, fss))), viol).await;
+                }
+                a = self.now_ms;
+            }
+        }
+        if self.dead {
+            return;
+        }
+        if !(self.snap_has("rs=Finished") && self.snap_has("cond=NoError") && self.snap_has("dc=Complete")) {
+            self.bad(out, viol, "C02", "nak_loop_completes", format!("every missing byte got through within a fair lossy schedule of {} rounds but the delivery is not reported Finished / NoError / Complete: {}", rounds, self.t.verif_snapshot()));
+        }
+    }
+}
+
+impl RecvCase {
+    /// The Finished PDU lost again and again, played as `recv_finished_repeated` / `C02_lost_finisheds_round`
+    /// (Props/C02z.lean) quantify it: the whole file is delivered, the ACK of the EOF and the Finished PDU go out;
+    /// then expiry after expiry of the positive-ACK timer is serviced within the following period, fewer than `limit`
+    /// of them.  Checked on the real transaction: every expiry is followed by the transmission of that same Finished
+    /// PDU, no limit is declared, the outcome stays as reported.
+    pub async fn fin_loop(&mut self, out: &mut dyn Write, viol: &mut u64, rng: &mut Rng, file: &[u8], md: &PDU, eof: &PDU) {
+        let (mode, crc, fss) = (self.cfg.mode, self.cfg.crc, self.cfg.fss);
+        let seg = self.cfg.seg as usize;
+        let m = self.cfg.max as u64;
+        let (ta, ti) = (self.cfg.ta as u64 * 1000, self.cfg.ti as u64 * 1000);
+        self.op(out, &format!("recv pdu {}", hexpdu(md)), viol).await;
+        let mut off = 0;
+        while off < file.len() {
+            let l = seg.min(file.len() - off);
+            self.op(out, &format!("recv pdu {}", hexpdu(&fd(off as u64, &file[off..off + l], mode, crc, fss))), viol).await;
+            off += l;
+        }
+        self.op(out, &format!("recv pdu {}", hexpdu(eof)), viol).await;
+        let mut first: Option<PDU> = None;
+        let mut guard = 0;
+        while verif::recv_has_pdu_to_send(&self.t) && guard < 8 {
+            self.op(out, "recv send", viol).await;
+            if let Some(p) = &self.last_emitted {
+                if matches!(p.payload, PDUPayload::Directive(Operations::Finished(_))) {
+                    first = Some(p.clone());
+                }
+            }
+            guard += 1;
+        }
+        let first = match first {
+            Some(p) => p,
+            None => {
+                self.bad(out, viol, "C02", "fin_loop_starts", format!("the whole file was delivered but no Finished PDU was transmitted: {}", self.t.verif_snapshot()));
+                return;
+            }
+        };
+        let a = self.now_ms;
+        let mut tp = self.now_ms;
+        // fewer than `limit` expiries, and all of them less than `limit` inactivity periods after the last PDU
+        let mut k = 0u64;
+        while k + 1 < m && !self.dead {
+            let t = tp + ta + rng.below(ta);
+            if t >= a + m * ti {
+                break;
+            }
+            k += 1;
+            self.op(out, &format!("recv adv {}", t - self.now_ms), viol).await;
+            self.op(out, "recv timeout", viol).await;
+            self.op(out, "recv send", viol).await;
+            let same = self.last_emitted.as_ref().map_or(false, |p| p.payload == first.payload);
+            if !same || !self.snap_has("rs=Finished") || !self.snap_has("cond=NoError") {
+                self.bad(out, viol, "C02", "fin_loop_repeats", format!("expiry {} of {} allowed (limit {}): the Finished PDU was not repeated or the outcome changed: emitted {:?}, {}", k, m - 1, m, self.last_emitted.as_ref().map(hexpdu), self.t.verif_snapshot()));
+                return;
+            }
+            tp = t;
+        }
+    }
+}
+
+impl SendCase {
+    fn snap_has(&mut self, what: &str) -> bool {
+        self.t.verif_snapshot().split_whitespace().any(|w| w == what || w.ends_with(&format!("={}", what)))
+    }
+
+    /// The EOF lost again and again, played as `waits_repeated` / `C02_lost_eofs_round` / `C10_lost_cancel_eofs_round`
+    /// (Props/C02z.lean) quantify it: the sender transmits the whole file and its EOF (or is cancelled and transmits
+    /// its EOF(cancel)); then expiry after expiry of the positive-ACK timer is serviced within the following period,
+    /// fewer than `limit` of them.  Checked on the real transaction: every expiry is followed by the transmission of
+    /// that same EOF and no limit is declared.
+    pub async fn eof_loop(&mut self, out: &mut dyn Write, viol: &mut u64, rng: &mut Rng, cancel_after: Option<u64>) {
+        let m = self.cfg.max as u64;
+        let (ta, ti) = (self.cfg.ta as u64 * 1000, self.cfg.ti as u64 * 1000);
+        let mut first: Option<PDU> = None;
+        let mut sent = 0u64;
+        let mut guard = 0;
+        while verif::send_has_pdu_to_send(&self.t) && guard < 200 && first.is_none() {
+            if Some(sent) == cancel_after {
+                self.op(out, "send cancel", viol).await;
+            }
+            self.op(out, "send send", viol).await;
+            sent += 1;
+            if let Some(p) = &self.last_emitted {
+                if matches!(p.payload, PDUPayload::Directive(Operations::EoF(_))) {
+                    first = Some(p.clone());
+                }
+            }
+            guard += 1;
+        }
+        let first = match first {
+            Some(p) => p,
+            None => {
+                let snap = self.t.verif_snapshot();
+                self.bad(out, viol, "C02", "eof_loop_starts", format!("no EOF was transmitted: {}", snap));
+                return;
+            }
+        };
+        let phase = if cancel_after.is_some() { "ss=Cancelled" } else { "ss=SendEof" };
+        let a = self.now_ms;
+        let mut tp = self.now_ms;
+        let mut k = 0u64;
+        while k + 1 < m && !self.dead {
+            let t = tp + ta + rng.below(ta);
+            if t >= a + m * ti {
+                break;
+            }
+            k += 1;
+            self.op(out, &format!("send adv {}", t - self.now_ms), viol).await;
+            self.op(out, "send timeout", viol).await;
+            self.op(out, "send send", viol).await;
+            let same = self.last_emitted.as_ref().map_or(false, |p| p.payload == first.payload);
+            if !same || !self.snap_has(phase) || !self.snap_has("st=Active") {
+                let prop = if cancel_after.is_some() { "C10" } else { "C02" };
+                let emitted = self.last_emitted.as_ref().map(hexpdu);
+                let snap = self.t.verif_snapshot();
+                self.bad(out, viol, prop, "eof_loop_repeats", format!("expiry {} of {} allowed (limit {}): the EOF was not repeated or the sender stopped waiting: emitted {:?}, {}", k, m - 1, m, emitted, snap));
+                return;
+            }
+            tp = t;
+        }
+    }
+}
+
 impl SendCase {
     pub fn note_adv(&mut self, ms: u64) {
         if !self.suspended {
@@ -1828,7 +2056,52 @@ pub fn run_recv(opts: &Opts, out: &mut dyn Write) {
             let _ = std::fs::remove_dir_all(&c.root);
         }
     });
-    stat(out, &format!("engine=recv cases={} oracle_violations={}", cases, viol));
+    // the NAK loop under fair loss (theorem-shaped schedules, the theorems' conclusions as oracles)
+    let mut loops = 0u64;
+    if opts.replay.is_none() {
+        rt.block_on(async {
+            let mut rng = Rng::new(opts.seed, "recv-nakloop");
+            let n = if opts.thorough { 400 } else { 40 };
+            for _ in 0..n {
+                cases += 1;
+                loops += 1;
+                let seg = *rng.pick(&[16u16, 24, 32]);
+                let cfg = RecvCfg {
+                    mode: TransmissionMode::Acknowledged,
+                    fss: if rng.chance(1, 6) { FileSizeFlag::Large } else { FileSizeFlag::Small },
+                    seg,
+                    crc: if rng.chance(1, 4) { CRCFlag::Present } else { CRCFlag::NotPresent },
+                    max: rng.range(3, 5) as u32,
+                    ti: *rng.pick(&[2i64, 3, 5]),
+                    ta: *rng.pick(&[1i64, 2]),
+                    tn: 1,
+                    immediate: rng.chance(1, 2),
+                    delay_ms: 0,
+                    fho: "-".to_string(),
+                };
+                let segu = seg as usize;
+                let len = *rng.pick(&[segu, segu + 1, 3 * segu, 3 * segu + 5, 6 * segu - 1, 9 * segu]);
+                let file = file_of(&format!("lin:{}:{}:{}", len, rng.range(1, 50), rng.below(256)));
+                let ck = if rng.chance(1, 4) { ChecksumType::Null } else { ChecksumType::Modular };
+                let md = metadata_pdu(&file, "out.bin", "src.bin", rng.chance(1, 2), ck.clone(), 0, cfg.mode, cfg.crc, cfg.fss);
+                let eof = eof_pdu(&file, ck, Condition::NoError, cfg.mode, cfg.crc, cfg.fss);
+                let mut c = RecvCase::new(&base, cases, cfg.clone());
+                c.truth.file = Some(file.clone());
+                let line = cfg.line();
+                c.hist.push(line.clone());
+                let inds = c.settle().await;
+                rec(out, &line, &format!("ok ind=[{}] st={} fs={}", inds.iter().map(ind_repr).collect::<Vec<_>>().join(";"), c.t.verif_snapshot(), fs_listing(&c.root)));
+                if loops % 4 == 0 {
+                    c.fin_loop(out, &mut viol, &mut rng, &file, &md, &eof).await;
+                } else {
+                    c.nak_loop(out, &mut viol, &mut rng, &file, &md, &eof).await;
+                }
+                c.drain(out, &mut viol).await;
+                let _ = std::fs::remove_dir_all(&c.root);
+            }
+        });
+    }
+    stat(out, &format!("engine=recv cases={} nak_loops={} oracle_violations={}", cases, loops, viol));
 }
 
 pub fn run_send(opts: &Opts, out: &mut dyn Write) {
@@ -1903,5 +2176,44 @@ pub fn run_send(opts: &Opts, out: &mut dyn Write) {
             let _ = std::fs::remove_dir_all(&c.root);
         }
     });
-    stat(out, &format!("engine=send cases={} oracle_violations={}", cases, viol));
+    // the EOF lost again and again (theorem-shaped schedules, the theorems' conclusions as oracles)
+    let mut loops = 0u64;
+    if opts.replay.is_none() {
+        rt.block_on(async {
+            let mut rng = Rng::new(opts.seed, "send-eofloop");
+            let n = if opts.thorough { 300 } else { 30 };
+            for _ in 0..n {
+                cases += 1;
+                loops += 1;
+                let seg = *rng.pick(&[16u16, 32, 64]);
+                let segu = seg as usize;
+                let len = *rng.pick(&[1usize, segu, 3 * segu + 5, 5 * segu - 1]);
+                let cfg = SendCfg {
+                    mode: TransmissionMode::Acknowledged,
+                    seg,
+                    crc: if rng.chance(1, 4) { CRCFlag::Present } else { CRCFlag::NotPresent },
+                    max: rng.range(3, 5) as u32,
+                    ti: *rng.pick(&[2i64, 3, 5]),
+                    ta: *rng.pick(&[1i64, 2]),
+                    tn: 1,
+                    closure: rng.chance(1, 2),
+                    cktype: if rng.chance(1, 4) { ChecksumType::Null } else { ChecksumType::Modular },
+                    fho: "-".to_string(),
+                    file: format!("lin:{}:{}:{}", len, rng.range(1, 50), rng.below(256)),
+                    nreq: 0,
+                };
+                let mut c = SendCase::new(&base, cases, cfg.clone());
+                let line = cfg.line();
+                c.hist.push(line.clone());
+                let inds = c.settle().await;
+                let snap = c.t.verif_snapshot();
+                rec(out, &line, &format!("ok ind=[{}] st={}", inds.iter().map(ind_repr).collect::<Vec<_>>().join(";"), snap));
+                let cancel_after = if loops % 3 == 0 { Some(rng.below(3)) } else { None };
+                c.eof_loop(out, &mut viol, &mut rng, cancel_after).await;
+                c.drain(out, &mut viol).await;
+                let _ = std::fs::remove_dir_all(&c.root);
+            }
+        });
+    }
+    stat(out, &format!("engine=send cases={} eof_loops={} oracle_violations={}", cases, loops, viol));
 }
